@@ -46,3 +46,35 @@ Section Wire.
   Definition helper_receive_file (payload : list Z) : option (list Z) :=
     if sniff_receive_file payload then zd payload else Some payload.
 End Wire.
+
+(* ---------- the sender's compression decision (compress/mod.rs should_compress_smart) ---------- *)
+Inductive compression : Type := CNone | CLz4 | CZstd.
+Inductive detection : Type := DAuto | DExtension | DAlways | DNever.
+(* outcome of the 64 KiB LZ4 content sample: compressible (ratio < 0.9), incompressible, read error, or no path given *)
+Inductive sample : Type := SCompressible | SIncompressible | SError | SNoPath.
+
+Definition should_compress_smart (is_local : bool) (mode : detection) (size : Z) (ext_compressed : bool) (s : sample) : compression :=
+  if is_local then CNone
+  else match mode with
+       | DAlways => CZstd
+       | DNever => CNone
+       | _ =>
+           if size <? SMALL_FILE_LIMIT then CNone
+           else if ext_compressed then CNone
+           else match mode with
+                | DExtension => CZstd
+                | _ => match s with SIncompressible => CNone | _ => CZstd end
+                end
+       end.
+
+Section Pipeline.
+  Variable zc lc : list Z -> list Z.
+  Variable zd : list Z -> option (list Z).
+
+  (* ssh.rs copy_file: no compression -> SFTP writes the bytes; otherwise compress(data, mode) piped to `sy-remote receive-file` *)
+  Inductive sent : Type := Sftp (x : list Z) | Helper (payload : list Z).
+  Definition send (d : compression) (x : list Z) : sent :=
+    match d with CNone => Sftp x | CZstd => Helper (zc x) | CLz4 => Helper (lc x) end.
+  Definition deliver (s : sent) : option (list Z) :=
+    match s with Sftp x => Some x | Helper p => helper_receive_file zd p end.
+End Pipeline.
